@@ -20,13 +20,12 @@ func (e Engine) Gen(prop, tier string, r *detsim.Rand) interface{} {
 	return GenC10(r, tier, e.Shape)
 }
 
-// GenIndexed: the even run indices below 2*SysC09Total are the systematic
-// corpus of C09 (every short operation sequence), spread over all workers.
-func (e Engine) GenIndexed(prop, tier string, idx uint64) interface{} {
-	if prop != "C09" || idx%2 != 0 || idx/2 >= SysC09Total(tier) {
+// GenIndexed returns the n-th case of the systematic corpus of C09 (every short operation sequence).
+func (e Engine) GenIndexed(prop, tier string, n uint64) interface{} {
+	if prop != "C09" || n >= SysC09Total(tier) {
 		return nil
 	}
-	return SysC09(tier, idx/2)
+	return SysC09(tier, n)
 }
 
 func (Engine) SystematicTotal(prop, tier string) uint64 {
